@@ -223,6 +223,15 @@ class C13(RebuildProp):
                     rng.shuffle(c)
                 return c
             out.append(self.scen(rng, P, v, pick(rng, P), cands, route="cli" if k % 7 == 0 else "lib"))
+        # a one-piece v1 payload whose piece hash is well-formed UTF-8 (the metafile decoder returns it as text)
+        for route in ("lib", "cli"):
+            for src in ("own", "ref"):
+                c = self.scen(rng, B, 1, ("S1", (14,)), lambda fi, f: [self.cand(rng, "intact")], route=route)
+                c["tree"]["files"][0]["mode"] = "u8sha1"
+                c["meta_src"] = src
+                for k2 in ("dest_dot", "rel_paths", "dest_spelling", "search_spelling"):
+                    c.pop(k2, None)
+                out.append(c)
         # the destination given as "." / "./" (working directory), single-file and directory torrents
         for v in (1, 2, 3):
             for dot in (".", "./"):
@@ -567,7 +576,9 @@ def pathres_universe():
 
 # the destination directory of every scenario is <sandbox>/dest
 HOSTILE = ["..", ".", "@SBX@/abs", "a/../../b", "../" * 6 + "x", "@SBX@/abs/deep",
-           "../dest_old", "../dest.bak/pkg", "../ghost/../dest/pkg", "pkg/../../dest-copy", "../../dest2"]
+           "../dest_old", "../dest.bak/pkg", "../ghost/../dest/pkg", "pkg/../../dest-copy", "../../dest2",
+           # separators of other systems: ordinary characters of a name here (they must stay that)
+           "..\\..\\..\\up", "a\\..\\..\\..\\b", "..\\"]
 
 
 class C19(RebuildProp):
